@@ -528,58 +528,57 @@ func ruleAloneInBucket(c *core.Ctx) {
 		nSites++
 		info := s.Pkg.TypesInfo
 		fkey := astx.FuncKey(s.EnclObj)
-		// variable receiving the store
-		var storeVar types.Object
-		ast.Inspect(s.Encl.Body, func(n ast.Node) bool {
-			if as, ok := n.(*ast.AssignStmt); ok && len(as.Rhs) == 1 && as.Rhs[0] == s.Call {
-				if id, ok := as.Lhs[0].(*ast.Ident); ok {
-					storeVar = info.ObjectOf(id)
-				}
+		// the store created here, and the SetAloneInBucket calls on it (here or in a helper it is handed to)
+		var encl *astx.DeclInfo
+		for _, dd := range index(c).Decls {
+			if dd.Decl == s.Encl {
+				encl = dd
 			}
-			return true
-		})
-		ok := false
-		detail := "no SetAloneInBucket call on the created store"
-		for _, call := range callsTo(info, s.Encl.Body, named("SetAloneInBucket")) {
-			if id, isID := ast.Unparen(recvExpr(call)).(*ast.Ident); !isID || info.Uses[id] != storeVar || len(call.Args) != 1 {
-				continue
-			}
-			be, isBin := ast.Unparen(call.Args[0]).(*ast.BinaryExpr)
-			if !isBin || be.Op != token.EQL {
-				detail = "argument is not `count == 1`"
-				continue
-			}
-			one := false
-			if tv, has := info.Types[be.Y]; has && tv.Value != nil && tv.Value.ExactString() == "1" {
-				one = true
-			}
-			cid, isID := ast.Unparen(be.X).(*ast.Ident)
-			if !one || !isID {
-				detail = "argument is not `count == 1`"
-				continue
-			}
-			// count comes from CountLedgersInBucket
-			fromCount := false
-			ast.Inspect(s.Encl.Body, func(n ast.Node) bool {
-				if as, isAs := n.(*ast.AssignStmt); isAs && len(as.Rhs) == 1 {
-					if cc, isCall := as.Rhs[0].(*ast.CallExpr); isCall {
-						if f := astx.Callee(info, cc); f != nil && f.Name() == "CountLedgersInBucket" {
-							if l, isID := as.Lhs[0].(*ast.Ident); isID && info.ObjectOf(l) == info.Uses[cid] {
-								fromCount = true
-							}
-						}
-					}
-				}
-				return true
-			})
-			if !fromCount {
-				detail = "count does not come from CountLedgersInBucket"
-				continue
-			}
-			ok = true
 		}
-		c.Check(ok, "SCOPE/alone-in-bucket", fkey+":refresh", pos(c, s.Call), "store.SetAloneInBucket(CountLedgersInBucket == 1)",
-			"the store created here is handed out without refreshing the alone-in-bucket flag from `CountLedgersInBucket(...) == 1`: "+detail)
+		if encl == nil {
+			c.Unrecognised("SCOPE/alone-in-bucket", fkey+":refresh", pos(c, s.Call), "enclosing declaration not resolved")
+			continue
+		}
+		envs := scopeEnvs(c, encl)
+		storeOrigin := envs[0].origin(s.Call)
+		state := 0 // +1 ok, -1 wrong, 0 unread
+		detail := "no SetAloneInBucket call on the created store"
+		for _, env := range envs {
+			for _, call := range env.calls(named("SetAloneInBucket")) {
+				if len(call.Args) != 1 || env.origin(recvExpr(call)) != storeOrigin {
+					continue
+				}
+				arg := env.origin(call.Args[0])
+				inner := strings.TrimSuffix(strings.TrimPrefix(arg, "("), ")")
+				cnt := ""
+				switch {
+				case strings.HasSuffix(inner, "==1"):
+					cnt = strings.TrimSuffix(inner, "==1")
+				case strings.HasPrefix(inner, "1=="):
+					cnt = strings.TrimPrefix(inner, "1==")
+				}
+				switch {
+				case cnt != "" && strings.Contains(cnt, "CountLedgersInBucket(") && strings.HasSuffix(cnt, "#0"):
+					if state == 0 {
+						state = 1
+					}
+				case strings.Contains(arg, "?"):
+					detail = "argument not read: " + arg
+				default:
+					state = -1
+					detail = "argument is " + arg + ", not `CountLedgersInBucket(...) == 1`"
+				}
+			}
+		}
+		_ = info
+		switch {
+		case state == 1:
+			c.Pass("SCOPE/alone-in-bucket", fkey+":refresh", pos(c, s.Call), "store.SetAloneInBucket(CountLedgersInBucket == 1)")
+		case state == 0 && strings.HasPrefix(detail, "argument not read"):
+			c.Unrecognised("SCOPE/alone-in-bucket", fkey+":refresh", pos(c, s.Call), detail)
+		default:
+			c.Fail("SCOPE/alone-in-bucket", fkey+":refresh", pos(c, s.Call), "the store created here is handed out without refreshing the alone-in-bucket flag from `CountLedgersInBucket(...) == 1`: "+detail)
+		}
 	}
 	c.Floor("SCOPE/alone-in-bucket", "ledger store creations in the driver", nSites, 2)
 	// the count statement counts every ledger of the bucket (no extra filter)
